@@ -48,7 +48,7 @@ def floors(tier):
     return {"errors_checked": 40000, "context_errors_checked": 2000, "errors_through_ref_hop": 500,
             "false_schema_errors": 100, "d3_required_errors": 100, "propertyNames_errors": 100,
             "errors_below_position0": 3000, "applicator_cells": 60, "identical_objects": 40000, "leaves_without_held_ancestors": 2000,
-            "recursive_template_cases": 100, "errors_rendered": 10000}
+            "recursive_template_cases": 100, "errors_rendered": 10000, "documents_named_like_a_metaschema": 10}
 
 
 def same(a, b):
@@ -489,6 +489,11 @@ def run(ctx):
             idx += 1
             if not ctx.mine(idx) or name == "metaschema":
                 continue
+            if isinstance(S, dict) and impl.IDKW[d] not in S and rq.random() < 0.4:
+                # the document calls itself what a bundled metaschema is called (a patched copy of a draft): its local
+                # references still address IT
+                S = dict(S, **{impl.IDKW[d]: rq.choice([impl.META_ID[d], impl.META_ID[7].rstrip("#"), impl.META_ID[3]])})
+                ctx.count("documents_named_like_a_metaschema")
             if rq.random() < 0.7:
                 S = R.with_ref_siblings(rq, d, S)
                 store = {u: R.with_ref_siblings(rq, d, doc) for u, doc in store.items()}
